@@ -696,6 +696,9 @@ def oracle_lexeme(R, sp, lexeme):
     v = (tok.indent, tok.value) if sp.key == 'bc' else tok.value
     if not sp.in_dom(v):
         fails.append(('from_raw_text', 'value-outside-domain'))
+    if sp.key == 'ic' and v != lexeme[1:].lstrip(' '):
+        # the meaning of an inline comment lexeme: what follows its ONE marker, without the blanks in front
+        fails.append(('from_raw_text', 'value-is-not-the-text-after-the-marker'))
     return fails, 'ok'
 
 
